@@ -21,7 +21,7 @@ def run_driver(chk, nrand):
         v = vlib.classify_panic(t["out"])
         if v:
             return dict(scenarios=0, distinct=0, samples=[], violations=[v], extra={}), wd
-        raise vlib.MachineryError("request-loop driver failed:\n" + t["out"][-3500:])
+        raise vlib.driver_failed("request-loop driver failed", t["out"])
     res = json.load(open(resf))
     res["violations"] = (res["violations"] or []) + viol
     return res, wd
